@@ -73,6 +73,8 @@ func chainSession(g *gen.G, idx int) Sess {
 
 // mergeVector is one transition explored by the bounded model MC_Merge.
 type mergeVector struct {
+	Base tv.T   `json:"base"`
+	Hist []tv.T `json:"hist"`
 	Dst tv.T   `json:"dst"`
 	Src tv.T   `json:"src"`
 	OK  bool   `json:"ok"`
@@ -84,11 +86,22 @@ type mergeVector struct {
 // the pre-state document appended, the patch layered on it.
 func replayMerge(v *mergeVector) (agree bool, obs map[string]any) {
 	s := real.NewSess()
-	o0 := s.MergeDocument("base", nil, v.Dst)
+	o0 := s.MergeDocument("base", nil, v.Base)
 	if !o0.OK {
 		return false, map[string]any{"stage": "append base", "err": o0.Msg}
 	}
-	o := s.MergeDocument("patch", []string{"base"}, v.Src)
+	prev := "base"
+	for i, h := range v.Hist {
+		id := fmt.Sprintf("h%d", i)
+		if oh := s.MergeDocument(id, []string{prev}, h); !oh.OK {
+			return false, map[string]any{"stage": fmt.Sprintf("history layer %d rejected", i), "err": oh.Msg}
+		}
+		prev = id
+	}
+	if ds := s.P.Documents(); len(ds) != 1 || !tv.Equal(tv.FromGo(ds[0].Data), v.Dst) {
+		return false, map[string]any{"stage": "state after the history differs from the specification", "docs": s.Docs()}
+	}
+	o := s.MergeDocument("patch", []string{prev}, v.Src)
 	obs = map[string]any{"ok": o.OK, "err": o.Msg}
 	if o.Panic {
 		obs["panic"] = true
@@ -165,7 +178,7 @@ func modelMerge(r *Run, maxLayers int) (states, distinct, vectors, replayed int6
 }
 
 func C01(r *Run) {
-	mst, mdi, mvec, mrep, mcmd := modelMerge(r, r.Pick(2, 3))
+	mst, mdi, mvec, mrep, mcmd := modelMerge(r, r.Pick(3, 4))
 	r.Logf("model: %d states, %d vectors, %d replayed", mst, mvec, mrep)
 	if mrep < 1000 {
 		Fatal("MC_Merge produced only %d vectors", mrep)
